@@ -391,6 +391,16 @@ func (g *Gen) genPrint() *Ast {
 		}
 		g.tag("mods")
 	}
+	if g.p.Mods && !g.p.Effects && r.Chance(12) {
+		// an escaper feeding default: on an empty (or absent) value the escaper's empty result must
+		// still count as empty
+		esc := []string{"attrEscape", "cssEscape", "jsEscape", "htmlEscape", "urlEncode", "jsonEscape", "linkEscape", "ae", "ce", "jse"}[r.Intn(10)]
+		a.Mods = []AMod{{Name: esc}, {Name: []string{"default", "def"}[r.Intn(2)], Args: []AArg{{Lit: true, Text: []string{"none", "N/A", "0"}[r.Intn(3)], Quote: `"`}}}}
+		if o, ok := g.pickOperand("string", "bytes", "missing"); ok && r.Chance(70) {
+			a.Path = o.Path
+		}
+		g.tag("mods:escaper-then-default")
+	}
 	if g.p.PfxSfx && r.Chance(40) {
 		if r.Chance(70) {
 			a.Pfx = []string{"<li>", "[", "p:", "«"}[r.Intn(4)]
